@@ -56,7 +56,7 @@ func resolveCell(v ssa.Value) ssa.Value {
 		if !ok {
 			return v
 		}
-		sts := storesTo(a)
+		sts := reachingStores(u, a)
 		if 1 != len(sts) {
 			return v
 		}
@@ -253,4 +253,53 @@ func selectArmBlock(s *ssa.Select, idx int) *ssa.BasicBlock {
 		return last.Block().Succs[1]
 	}
 	return nil
+}
+
+// reachingStores: the stores to cell a whose value the load can observe.  For
+// a load in the cell's own function these are the stores from which the load
+// is reachable without passing another store; for a load inside a function
+// literal, the same with respect to the point where the literal is made.
+// Stores made inside function literals are always kept.
+func reachingStores(load *ssa.UnOp, a *ssa.Alloc) []*ssa.Store {
+	all := storesTo(a)
+	if len(all) < 2 {
+		return all
+	}
+	var use ssa.Instruction = load
+	for f := load.Parent(); f != a.Parent(); {
+		if nil == f || nil == f.Parent() {
+			return all
+		}
+		var mk ssa.Instruction
+		n := 0
+		eachInstr(f.Parent(), func(i ssa.Instruction) {
+			if mc, ok := i.(*ssa.MakeClosure); ok && mc.Fn == ssa.Value(f) {
+				mk = mc
+				n++
+			}
+		})
+		if 1 != n {
+			return all
+		}
+		use = mk
+		f = f.Parent()
+	}
+	isStore := func(i ssa.Instruction) bool {
+		st, ok := i.(*ssa.Store)
+		return ok && resolveFree(st.Addr) == ssa.Value(a)
+	}
+	var out []*ssa.Store
+	for _, st := range all {
+		if st.Parent() != a.Parent() {
+			out = append(out, st)
+			continue
+		}
+		if nil != (reachQ{From: locOf(st), Target: func(i ssa.Instruction) bool { return i == use }, Block: isStore}).run() {
+			out = append(out, st)
+		}
+	}
+	if 0 == len(out) {
+		return all
+	}
+	return out
 }
